@@ -48,6 +48,7 @@ ASSUMPTIONS = [
     "latitudes stay within +-80 degrees and user weights within [0.4, 2.5] (weights of 0 cannot be undone by any code)",
     "cross-set rotators: only alpha=1 bases (MCARotator, ComplexMCARotator, CPCCARotator on CPCCA(alpha=1)) and only score arrays on the "
     "fit's own sample labels enter the score round trip; their transform for alpha<1 / unseen labels is decided by C04/C05",
+    "rotators get at least two and at most min(n-1, p) modes (a null mode cannot be rotated); a rotation that reports non-convergence counts as refused",
     "rotators run at data scale >= 1e-2: promax adds machine eps to the communalities, so rotated loadings are exact only to eps/|loading| (C11's subject)",
 ]
 
@@ -576,6 +577,8 @@ def run_case(case, obs):
     q = list(pv)  # feature count after the (possibly truncating) PCA
     if fam == "single":
         kmax = min(n, pv[0])
+        if cls in SINGLE_ROT:
+            kmax = min(n - 1, pv[0])  # never hand a null mode (centred data: rank <= n-1) to the rotation
         k = kmax if case["full"] else int(np.clip(1 + int(case["kfrac"] * kmax), 1, kmax))
     else:
         for i, f in enumerate(case["fields"]):
